@@ -117,6 +117,28 @@ pub struct Shared {
 
 pub type Sh = Arc<Mutex<Shared>>;
 
+static WRITE_THROUGH: Mutex<Option<std::fs::File>> = Mutex::new(None);
+
+/// In an isolated child every event is appended to the output file the moment it is recorded, so that the parent
+/// knows how far the ceremony got if the process dies.
+pub fn set_write_through(path: &str) {
+    let mut w = WRITE_THROUGH.lock().unwrap();
+    if w.is_none() {
+        *w = Some(std::fs::OpenOptions::new().create(true).append(true).open(path).expect("open child sink"));
+    }
+}
+
+impl Shared {
+    pub fn record(&mut self, v: Value) {
+        if let Some(f) = WRITE_THROUGH.lock().unwrap().as_mut() {
+            use std::io::Write;
+            let _ = writeln!(f, "{v}");
+            let _ = f.flush();
+        }
+        self.log.push(v);
+    }
+}
+
 pub fn new_shared() -> Sh {
     Arc::new(Mutex::new(Shared {
         log: vec![],
@@ -334,7 +356,7 @@ impl TStore {
     fn emit(&self, d: Value) {
         let mut s = self.sh.lock().unwrap();
         s.counted += 1;
-        s.log.push(json!({"ev": "Store", "d": d}));
+        s.record(json!({"ev": "Store", "d": d}));
     }
 }
 
@@ -534,8 +556,8 @@ impl UserValidationMethod for TUv {
                 Ok((p, v)) => (true, p, v, 0),
                 Err(b) => (false, false, false, b),
             };
-            s.log.push(json!({"ev": "Prompt", "d": {"shown": shown, "up": presence, "uv": verification,
-                                                     "ok": ok, "pres": p, "verif": v, "err": e}}));
+            s.record(json!({"ev": "Prompt", "d": {"shown": shown, "up": presence, "uv": verification,
+                                                   "ok": ok, "pres": p, "verif": v, "err": e}}));
             ans
         };
         gate(&self.sh).await;
